@@ -442,7 +442,11 @@ where
     }
 
     pub(crate) fn insert_with_hash(&self, key: Arc<K>, hash: u64, value: V) {
+        #[cfg(mini_moka_verif)]
+        crate::verif::switch_point(crate::verif::site::INSERT_START);
         let (op, now) = self.base.do_insert_with_hash(key, hash, value);
+        #[cfg(mini_moka_verif)]
+        crate::verif::switch_point(crate::verif::site::INSERT_AFTER_MAP);
         let hk = self.base.housekeeper.as_ref();
         Self::schedule_write_op(
             self.base.inner.as_ref(),
@@ -464,6 +468,8 @@ where
         Q: Hash + Eq + ?Sized,
     {
         if let Some(kv) = self.base.remove_entry(key) {
+            #[cfg(mini_moka_verif)]
+            crate::verif::switch_point(crate::verif::site::INVALIDATE_AFTER_MAP);
             let op = WriteOp::Remove(kv);
             let now = self.base.current_time_from_expiration_clock();
             let hk = self.base.housekeeper.as_ref();
@@ -544,6 +550,8 @@ where
     S: BuildHasher + Clone + Send + Sync + 'static,
 {
     fn sync(&self) {
+        #[cfg(mini_moka_verif)]
+        crate::verif::switch_point(crate::verif::site::SYNC_START);
         self.base.inner.sync(MAX_SYNC_REPEATS);
     }
 }
@@ -585,11 +593,17 @@ where
         // - We are doing a busy-loop here. We were originally calling `ch.send(op)?`,
         //   but we got a notable performance degradation.
         loop {
+            #[cfg(mini_moka_verif)]
+            crate::verif::switch_point(crate::verif::site::WRITE_LOOP_TOP);
             BaseCache::<K, V, S>::apply_reads_writes_if_needed(inner, ch, now, housekeeper);
+            #[cfg(mini_moka_verif)]
+            crate::verif::switch_point(crate::verif::site::WRITE_BEFORE_SEND);
             match ch.try_send(op) {
                 Ok(()) => break,
                 Err(TrySendError::Full(op1)) => {
                     op = op1;
+                    #[cfg(mini_moka_verif)]
+                    crate::verif::switch_point(crate::verif::site::WRITE_RETRY);
                     std::thread::sleep(Duration::from_micros(WRITE_RETRY_INTERVAL_MICROS));
                 }
                 Err(e @ TrySendError::Disconnected(_)) => return Err(e),
@@ -598,6 +612,9 @@ where
         Ok(())
     }
 }
+
+#[cfg(mini_moka_verif)]
+mod verif_hooks;
 
 // For unit tests.
 #[cfg(test)]
